@@ -80,7 +80,7 @@ def own_vocabulary(binary):
     values = {}
     defs = None
     for doc in REFERENCE:
-        for kw in ({'entry': 0}, {'entry': 3, 'flags': 7}, {'entry': 4, 'flags': 7, 'ow': 100.0, 'oh': 50.5}):
+        for kw in [{'entry': 0}, {'entry': 4, 'flags': 7, 'ow': 100.0, 'oh': 50.5}] + [{'entry': 3, 'flags': fl} for fl in range(8)]:
             r = d.conv(doc, **kw)
             if not r.ok:
                 continue
